@@ -416,14 +416,17 @@ def check_atoms(core, chk, cases, imap, amap=None, found_so_far=False, limit=6):
 
 
 # ---------------------------------------------------------------- chain structure tie (Model/ReSplit.lean vs. the compiled strings)
-def check_chain(core, chk, cases, amap, limit=6):
+def check_chain(core, chk, cases, amap, limit=6, skip=None):
     """the pieces and gaps the Lean model of yr_re_ast_split_at_chaining_point gives a string == the chain the real compiler
     built (h_re `strs=`: one YR_STRING per piece, chained_to the previous one, chain_gap_min / chain_gap_max)"""
     lines, want = [], {}
-    res = {"compared": 0, "chained": 0, "mismatch": 0}
+    res = {"compared": 0, "chained": 0, "mismatch": 0, "skipped_ambiguous": 0}
     for c in cases:
         cid = c.split(" ", 1)[0]
         toks = dict(t.split("=", 1) for t in c.split()[1:] if "=" in t)
+        if skip is not None and skip(toks):
+            res["skipped_ambiguous"] += 1
+            continue
         al = amap.get(cid, "")
         st = [t for t in al.split() if t.startswith("strs=")]
         if "mstr" in toks or toks.get("re", "?") == "?" or " OK " not in al or not st or st[0] == "strs=-":
